@@ -132,12 +132,15 @@ def eval_roundtrip(case):
                           f"({case['n']} samples) fits M={Mf:.6g} ({Mf / M:.4f} x), tau={tf:.6g} ({tf / tau:.4f} x)",
                           case=case, observed=[Mf, tf], expected=[M, tau], tol=RT_TOL))
     # supplied tau: returned unchanged, M the bounded least-squares optimum
-    for tau_s in (tau, 1.7 * tau):
+    for tau_s, positional in ((tau, False), (1.7 * tau, False), (1.7 * tau, True)):
         fc2 = ForecasterOnePhase(rf, **kw)
         with warnings.catch_warnings():
             warnings.simplefilter("ignore")
             try:
-                fc2.fit(t, y, tau=tau_s)
+                if positional:  # fit(time, cumulative, tau): the third positional argument IS tau
+                    fc2.fit(t, y, tau_s)
+                else:
+                    fc2.fit(t, y, tau=tau_s)
             except Exception as e:  # noqa: BLE001
                 viol.append(V("fit-fixed-tau/raises", f"fit(tau={tau_s}) raised {type(e).__name__}: {e}", case=case))
                 continue
